@@ -245,6 +245,14 @@ static void execOp(const std::string& actor, size_t idx, const js::Value& op) {
 						recordException(actor, "serialize");
 					}
 				}
+				if (block == 0 && result == "IDLE") {
+					// a polling loop takes time: 25 simulated microseconds per empty poll, otherwise the
+					// clock could never advance while a step(0) loop spins
+					uint64_t until = usim::now_ns() + 25000ull;
+					std::function<bool()> ready = [until]() { return usim::now_ns() >= until; };
+					std::function<uint64_t()> dl = [until]() { return until; };
+					usim::block_until(ready, dl, "poll-pause", nullptr);
+				}
 				bool stop = (result == "FINISHED" || result == "EXC");
 				for (size_t u = 0; u < until.size(); u++)
 					if (until[u].str() == result) stop = true;
@@ -310,6 +318,14 @@ static void execOp(const std::string& actor, size_t idx, const js::Value& op) {
 			usim::block_until(ready, dl, "sleep", nullptr);
 		} else if (name == "sleep") {
 			usim::sleep_ms((uint64_t)op["ms"].i64(1));
+		} else if (name == "drain") {
+			// bounded liveness: wait until interpreter i made n more step() calls, or nothing else can run
+			size_t ii = (size_t)op["i"].i64(0);
+			int target = R->slots[ii].steps + (int)op["n"].i64(200);
+			std::function<bool()> ready = [ii, target]() { return R->slots[ii].steps >= target || usim::others_quiescent(10000000000ull); };
+			// re-evaluated every simulated millisecond so that timers and timed waits of the others can elapse
+			std::function<uint64_t()> dl = []() { return usim::now_ns() + 1000000ull; };
+			usim::block_until(ready, dl, "drain", nullptr);
 		} else if (name == "mark") {
 			tr::Rec(actor, "mark").str(op["name"].str());
 		} else if (name == "settle") {
